@@ -118,7 +118,11 @@ def run_impl(c):
     plot_utils.subdivideCubicPath(sp, float(c["flat"]))
     snap = copy.deepcopy(sp)
     sp2 = mk()
-    plot_utils.subdivideCubicPath(sp2, float(c["flat"]))
+    # the second run passes the documented default of the start index explicitly (positionally or by keyword): the same request
+    style = sum(len(nd) for nd in c["nodes"]) + len(str(c["flat"]))
+    if style % 3 == 0: plot_utils.subdivideCubicPath(sp2, float(c["flat"]))
+    elif style % 3 == 1: plot_utils.subdivideCubicPath(sp2, float(c["flat"]), 1)
+    else: plot_utils.subdivideCubicPath(s_p=sp2, flat=float(c["flat"]), i=1)
     if sp != snap: sp2 = sp              # the earlier result was changed behind the caller's back: judge what it has become
     return {"out": [[(F(h[0]), F(h[1])) for h in node] for node in sp2]}
 
